@@ -54,9 +54,9 @@ def shallowFields : List (String × String × String) :=
     the package assigns through a pointer to a `pointee` type (decided: `pointeeWrites = []`);
     *state.Contract objects are copied before Management changes them (management.go:484, 711: decided by
     the same list); gasRecord / gasPerVoteCache hold big.Int VALUES that are only replaced wholesale
-    (`cache.gasPerVoteCache[k] = *tmp`, append of a fresh pair). NOT decided here: in-place arithmetic on
-    a *big.Int read out of a cache (`x.Add(x, …)` with x = cs[i].Votes) — searched by the harness
-    (live node vs node restarted from the same store after every block). -/
+    (`cache.gasPerVoteCache[k] = *tmp`, append of a fresh pair). In-place arithmetic on a *big.Int read
+    out of a cache through a local alias (`x.Add(x, …)` with x = cs[i].Votes) and writes by users of the
+    exported getters outside the package are decided by `native_cache_aliases_read_only` below. -/
 def shallowReviewed : List (String × String × String) := [
   ("DesignationCache", "oracles.nodes", "keys.PublicKeys"), ("DesignationCache", "stateVals.nodes", "keys.PublicKeys"),
   ("DesignationCache", "neofsAlphabet.nodes", "keys.PublicKeys"), ("DesignationCache", "notaries.nodes", "keys.PublicKeys"),
@@ -122,6 +122,38 @@ theorem native_ro_cache_not_written_through :
     writes.all writeOK = true ∧ calls.all callOK = true ∧ paramWritersStep paramWriters = paramWriters ∧
     (writes.all fun w => w.src.all knownSources.contains) = true ∧
     (calls.all fun c => c.src.all knownSources.contains) = true ∧ 0 < roSites ∧ 0 < rwSites := by decide
+
+/-! (c) local aliases and users outside the package. -/
+
+/-- pointer-receiver methods that do not modify their receiver. -/
+def readOnlyMethods : List String :=
+  ["Sign", "Cmp", "CmpAbs", "Int64", "IsInt64", "Uint64", "IsUint64", "Bytes", "String", "BitLen", "GetScriptHash", "Equal", "Compare"]
+
+/-- functions that do not modify what they are handed (math/big methods modify their receiver only). -/
+def readOnlyArgFuncs : List String :=
+  ["ext:big.Int.Mul", "ext:big.Int.Div", "ext:big.Int.Add", "ext:big.Int.Sub", "ext:big.Int.Cmp", "ext:big.Int.Set",
+   "ext:slices.Backward", "ext:slices.Clone", "ext:maps.Clone", "ext:slices.BinarySearchFunc", "getCommitteeMembers"]
+
+/-- a use of a LOCAL ALIAS of something stored in a cache (`cs := cache.committee; … cs[i].Votes …`): a
+    read-only method / a hand-over to a function that only reads, or — if it modifies — the alias is of a
+    container that Copy() clones, taken from an object that is not the read-only one. -/
+def aliasOK (w : Write) : Bool :=
+  readOnlyMethods.any (fun m => w.kind == "ptrcall:" ++ m) ||
+  readOnlyArgFuncs.any (fun f => w.kind == "arg-of:" ++ f) ||
+  ((fields.any fun f => f.alias == w.target && f.action == "clone") && !w.src.contains "ro")
+
+set_option maxRecDepth 100000 in
+/-- (c) nothing stored in a cache is modified through a local alias (in particular no in-place arithmetic on a
+    *big.Int read out of a cache, no element write through a copied slice header), except into containers the
+    layer owns; and no function of pkg/core, pkg/core/interop/**, stateroot, mempool assigns through a pointer to
+    an object a cache container points to (native.GetContract & co. hand out the cached *state.Contract). -/
+theorem native_cache_aliases_read_only :
+    aliasWrites.all aliasOK = true ∧ externalPointeeWrites = [] ∧ 100 ≤ externalFuncsScanned := by decide
+
+example : aliasOK ⟨"pkg/core/native/native_neo.go", "NEO.PostPersist", "NeoCache.committee", "ptrcall:Add", ["rw"]⟩ = false := by decide
+example : aliasOK ⟨"pkg/core/native/native_neo.go", "NEO.x", "NeoCache.committee", "elem", ["rw"]⟩ = false := by decide
+example : aliasOK ⟨"pkg/core/native/policy.go", "Policy.x", "PolicyCache.blockedAccounts", "elem", ["rw"]⟩ = true := by decide
+example : aliasOK ⟨"pkg/core/native/policy.go", "Policy.x", "PolicyCache.blockedAccounts", "elem", ["ro"]⟩ = false := by decide
 
 -- what the obligations reject (non-vacuity of the checks themselves)
 example : copyOK ⟨"NeoCache", "gasPerVoteCache", "map[string]big.Int", "map", true, "assign", "NeoCache.gasPerVoteCache"⟩ = false := by decide
